@@ -172,7 +172,8 @@ theorem grammar_facts : F.schemaGrammarStrict = true ∧ F.unquoteOnlyStrings = 
 /-- … option values are taken as written (no stray blank, no octal), and what SQLite would refuse
     to declare is refused before the storage is opened, so a rejected definition writes nothing
     even where an open would have stored a merge (F59, F61) -/
-theorem option_facts : F.optionValuesAsWritten = true ∧ F.declarableCheckedBeforeOpen = true := by decide
+theorem option_facts :
+    F.optionValuesAsWritten = true ∧ F.declarableCheckedBeforeOpen = true ∧ F.keyColumnFoldedLookup = true := by decide
 
 /-- non-vacuity: the README's own example is accepted as specified -/
 example :
